@@ -23,6 +23,9 @@ def run(ctx):
         "the leader glue (consumergroup.go assignTopicPartitions) passes members/partitions through unchanged; its traces are covered by C15",
     ]
     broken = []
+    ok, log = ctx.extract("groupbalancer", ["lean/KafkaVerif/Gen/GroupBalancerSel.lean"])
+    if not ok:
+        broken.append({"kind": "obligation", "name": "translator go/extract groupbalancer", "detail": log[-1500:]})
     res = ctx.prove(MODULE)
     if not res["ok"]:
         broken.append({"kind": "obligation", "theorems": res["failed"], "detail": res["reasons"][:10]})
@@ -40,9 +43,11 @@ def run(ctx):
     ctx.coverage["rule"] = (
         "exhaustive: members 1..4 (ids from a pool of tricky strings: prefixes, empty, NUL, high-bit, 'member-10' vs 'member-9'), "
         "topics <= 2 with all 5 subscription listings per member ({}, {0}, {1}, {0,1}, {1,0}), partitions (p0,p1) with p0+p1 <= 6 listed interleaved "
-        "in shuffled id order (sometimes sparse ids), all member listing orders for n <= 3 (n = 4: 1/4 sample x 2 orders in quick, all 24 in thorough); "
-        "random: 400 (quick) / 6000 (thorough) groups with 1..40 members, 1..4 topics, 0..60 (..400) partitions per topic incl. near multiples of the "
+        "in shuffled id order (sometimes sparse ids), all member listing orders for n <= 3 (n = 4: 1/2 sample x 2 orders in quick, all 24 in thorough); "
+        "random: 1200 (quick) / 6000 (thorough) groups with 1..40 members, 1..4 topics, 0..60 (..400) partitions per topic incl. near multiples of the "
         "member count, 1..4 racks; 60 cases outside the hypotheses (repeated topic / equal ids) for model fidelity only. "
+        "helpers findMembersByTopic / findPartitions (verif export hook) on every random group and 1/7 of the small ones; "
+        "RackAffinity: each group called 4 (quick) / 12 (thorough) times, every distinct output is a case (Go map order is sampled, not controlled). "
         "distinct = distinct op lines with a non-empty assignment")
     concrete = [d for d in dis if d.get("kind") == "disagreement" and not d["holds_on_impl"]]
     others = [d for d in dis if d not in concrete]
